@@ -181,6 +181,12 @@ class Row(ModelObj):
             return Stub(lambda ex_, a, k: [], 'row.keys')
         raise Unsupported(f'row.{name}')
 
+    def m_iter(self, ex):
+        # iterating an action row yields its keys (only used to build the `expected_tokens` hint for error())
+        if self.kind == 'action':
+            return []
+        raise Unsupported('iteration over a goto row')
+
     def get(self, ex, a, k):
         ltype = a[0]
         if isinstance(ltype, str):
@@ -316,6 +322,9 @@ def concretise(ex, A, mode):
     env.vars.update(self=selfo, tokens=tokens, lookahead=la, lookaheadstack=lastack, actions=Table('actions'), goto=Table('goto'),
                     prod=Table('prod'), defaulted_states=Table('defaulted'), pslice=pslice, errorcount=A.errorcount,
                     statestack=statestack, symstack=symstack, track_positions=True, errtoken=None)
+    for name_, attr_ in ALIASES.items():
+        if name_ not in env.vars and attr_ in selfo.fields:
+            env.vars[name_] = selfo.fields[attr_]
     ex.drv = dict(selfo=selfo, env=env, statestack=statestack, symstack=symstack, used=used, g=g, A=A)
     return env
 
@@ -369,6 +378,9 @@ def loop_parts():
     return fn, fn.body[:i], loops[0], fn.body[i + 1:]
 
 
+ALIASES = {}
+
+
 def check_prelude(prelude):
     """the statements before the loop establish the initial abstract state (checked by a concrete-heap run)"""
     import sly.yacc as Y
@@ -401,6 +413,14 @@ def check_prelude(prelude):
             return f'prelude may raise: {outs}'
     env, selfo = res['env'], res['self']
     v = env.vars
+    # local names the prelude binds to the very object stored in a field of self (statestack, symstack, ...): the loop body may use either spelling
+    ALIASES.clear()
+    for name_, val_ in v.items():
+        if name_ in ('self', 'tokens'):
+            continue
+        for attr_, fv_ in selfo.fields.items():
+            if val_ is fv_ and isinstance(val_, (list, dict)):
+                ALIASES[name_] = attr_
     problems = []
     if v.get('lookahead') is not None:
         problems.append('lookahead not None')
